@@ -38,6 +38,8 @@ MUTANTS = [
     ("C09-d-pending-waiter-not-acked-on-exit", "leveldb/db_compaction.go", "\t\tif x != nil {\n\t\t\tx.ack(ErrClosed)\n\t\t}\n\t\tdb.closeW.Done()\n\t}()\n\n\tfor {\n\t\tselect {\n\t\tcase x = <-db.mcompCmdC:", "\t\tdb.closeW.Done()\n\t}()\n\n\tfor {\n\t\tselect {\n\t\tcase x = <-db.mcompCmdC:", "C09"),
     ("C09-c-wait-ignores-close", "leveldb/db_compaction.go", "\t// Wait cmd.\n\tselect {\n\tcase err = <-ch:\n\tcase err = <-db.compErrC:\n\tcase <-db.closeC:\n\t\treturn ErrClosed\n\t}\n\treturn err\n}\n\n// Send range compaction request.", "\t// Wait cmd.\n\tselect {\n\tcase err = <-ch:\n\tcase err = <-db.compErrC:\n\t}\n\treturn err\n}\n\n// Send range compaction request.", "C09 C18"),
     ("C10-a-one-ack-missing", "leveldb/db_write.go", "\tfor i := 0; i < merged; i++ {", "\tfor i := 0; i < merged-1; i++ {", "C10"),
+    ("C10-b-overflow-also-releases", "leveldb/db_write.go", "\t\tverifEvent(10, 0, 0, 0)\n\t\tdb.writeMergedC <- false\n", "\t\tverifEvent(10, 0, 0, 0)\n\t\tdb.writeMergedC <- false\n\t\t<-db.writeLockC\n", "C10"),
+    ("C10-c-ack-nil-instead-of-group-error", "leveldb/db_write.go", "\t\tdb.writeAckC <- err\n", "\t\tdb.writeAckC <- nil\n", "C10"),
     ("C10-d-leader-says-merged-to-overflow", "leveldb/db_write.go", "\t\t\t\t\t\toverflow = true\n\t\t\t\t\t\tbreak merge\n\t\t\t\t\t}\n\t\t\t\t\tbatches = append(batches, incoming.batch)", "\t\t\t\t\t\tdb.writeMergedC <- true\n\t\t\t\t\t\tmerged++\n\t\t\t\t\t\tbreak merge\n\t\t\t\t\t}\n\t\t\t\t\tbatches = append(batches, incoming.batch)", "C10"),
     ("C11-a-seq-published-before-commit", "leveldb/db_transaction.go", "\t\t\tcerr = tr.db.s.commit(&tr.rec, false)", "\t\t\ttr.db.setSeq(tr.seq)\n\t\t\tcerr = tr.db.s.commit(&tr.rec, false)", "C11 C05"),
     ("C11-d-transaction-without-write-lock", "leveldb/db_transaction.go", "\ttr.mem.decref()\n\t<-tr.db.writeLockC\n}", "\ttr.mem.decref()\n}", "C11 C09"),
